@@ -476,6 +476,17 @@ func (e *refEv) eval(x *X) interface{} {
 			e.fail("type", x, "unknown name %s", x.Name)
 		}
 		return f.Interface()
+	case "opq":
+		l := ZooLeafOf(x)
+		z := e.env.FieldByName("Z").Interface().(Zoo)
+		v, class := l.Eval(&z)
+		if class != "" {
+			e.fail(class, x, "%s fails", l.Src)
+		}
+		if l.Alloc != nil {
+			e.account(x, l.Alloc(&z))
+		}
+		return v
 	case "ptr":
 		if len(e.clos) == 0 {
 			e.fail("type", x, "# outside closure")
